@@ -93,7 +93,7 @@ class Proc:
 
 
 class Sim:
-    def __init__(self, scn, golden, memo_dir, wall_cap=120.0):
+    def __init__(self, scn, golden, memo_dir, wall_cap=600.0):
         self.scn = scn
         self.golden = golden  # req -> {"module", "digest", "seams"}
         self.memo_dir = memo_dir
